@@ -26,6 +26,8 @@ def _quiet_unraisable(unraisable):
     world down mid-program; that is teardown noise, not an observation"""
     if isinstance(unraisable.exc_value, AssertionError) and "Deinitializing" in str(unraisable.exc_value):
         return
+    if isinstance(unraisable.exc_value, AttributeError) and "__del__" in repr(unraisable.object):
+        return  # a scope object whose construction was refused half-way (no event loop in a worker thread) is collected
     if isinstance(unraisable.exc_value, (ValueError, RuntimeError)) and \
             type(unraisable.object).__name__ in ("async_generator", "coroutine"):
         return  # finalisation of a generator / coroutine the torn-down world left suspended
